@@ -509,7 +509,7 @@ func checkC08(c *Ctx) {
 		}
 		c.Check(v == want, "C08-R2", "sentinel("+n+")", k.Pos(), fmt.Sprintf("== %d (minimum of its field width)", want), fmt.Sprintf("%s is %d; the invalid marker of its field is %d", n, v, want))
 	}
-	checkInvalidHandling(c, "C08-R2")
+	checkInvalidHandling(c, "C08-R2", lay)
 	// ---- R3 constants
 	cf := func(pkg, name string) (float64, bool) {
 		k := P.Const(pkg, name)
@@ -529,6 +529,9 @@ func checkC08(c *Ctx) {
 	}
 	// ---- R4 frequency tables
 	checkFrequencyTables(c, "C08-R4", or)
+	// ---- R5 operand ownership: the cells a formula reads belong to their own message
+	ruleGlobalsInitOnly(c, "C08-R5", []string{"rtcm/header", "rtcm/utils", "rtcm/type_msm4/satellite", "rtcm/type_msm4/signal", "rtcm/type_msm4/message", "rtcm/type_msm7/satellite", "rtcm/type_msm7/signal", "rtcm/type_msm7/message"})
+	c.MinInstances("C08-R5", 1)
 	c.MinInstances("C08-R1", 13)
 	c.MinInstances("C08-R2", 12)
 	c.MinInstances("C08-R3", 6)
@@ -536,7 +539,7 @@ func checkC08(c *Ctx) {
 }
 
 // checkInvalidHandling: zero results only under rough-invalid tests; fine-invalid replaces the delta by 0.
-func checkInvalidHandling(c *Ctx, rule string) {
+func checkInvalidHandling(c *Ctx, rule string, lay *layoutOracle) {
 	P := c.P
 	isRoughTest := func(cond ssa.Value) bool {
 		bo, ok := cond.(*ssa.BinOp)
@@ -589,6 +592,51 @@ func checkInvalidHandling(c *Ctx, rule string) {
 			if okAll {
 				c.OK(rule, "zero-only-when-rough-invalid("+key+")", fn.Pos(), "every zero result is guarded by an invalid rough value (or missing satellite)")
 			}
+			// every comparison of a field that has an invalid marker is an (in)equality with exactly that marker:
+			// the marker is one value of the field's range (minimum of a signed field, all ones of the
+			// 8-bit rough range), every other value is data
+			eachInstr(fn, func(ins ssa.Instruction) {
+				bo, ok := ins.(*ssa.BinOp)
+				if !ok {
+					return
+				}
+				switch bo.Op {
+				case token.EQL, token.NEQ, token.LSS, token.LEQ, token.GTR, token.GEQ:
+				default:
+					return
+				}
+				x, y := bo.X, bo.Y
+				if _, isC := constInt(x); isC {
+					x, y = y, x
+				}
+				k, isC := constInt(y)
+				fv, base := loadedField(stripConv(x))
+				if !isC || fv == nil {
+					return
+				}
+				section := fam + "_sig"
+				if bf, _ := loadedField(base); bf != nil && bf.Name() == "Satellite" {
+					section = fam + "_sat"
+				}
+				var want int64
+				found := false
+				for _, of := range lay.Sections[section] {
+					if of.Name == fv.Name() {
+						found = true
+						if of.Signed {
+							want = -(int64(1) << uint(of.Width-1))
+						} else {
+							want = (int64(1) << uint(of.Width)) - 1
+						}
+					}
+				}
+				if !found || !(strings.HasSuffix(fv.Name(), "Delta") || fv.Name() == "RangeWholeMillis" || fv.Name() == "PhaseRangeRate") {
+					return
+				}
+				good := (bo.Op == token.EQL || bo.Op == token.NEQ) && k == want
+				c.Check(good, rule, fmt.Sprintf("marker-test(%s %s)", key, fv.Name()), ins.Pos(), fmt.Sprintf("%s is tested only for (in)equality with its invalid marker %d", fv.Name(), want),
+					fmt.Sprintf("%s compares %s with %d using %s: only the single value %d marks an invalid field, every other value is valid data", key, fv.Name(), k, bo.Op, want))
+			})
 			// branches on a fine-invalid test must not skip the computation: both arms reach the scaled-value call
 			eachInstr(fn, func(ins ssa.Instruction) {
 				ifi, ok := ins.(*ssa.If)
